@@ -21,7 +21,7 @@ CLAIMED = {
             "seeded deterministic simulation: start-event invariant against the run's own history"),
 }
 
-PENDING = {'C07': 'not claimed yet: the check for this property is still being built (see DESIGN.md build order)', 'C15': 'not claimed yet: the check for this property is still being built (see DESIGN.md build order)', 'C20': 'not claimed yet: the check for this property is still being built (see DESIGN.md build order)'}
+PENDING = {'C20': 'not claimed yet: the check for this property is still being built (see DESIGN.md build order)'}
 
 CLAIMED["C10"] = ("travsim", "3.13", "history check against an executable model of the documented retry/stop/replay/verdict rules, with distinct-identifier and own-result (serial-tagged results) checks, valid and invalid settings, replayed jobs across crash-restart epochs",
                   "seeded deterministic simulation with fault injection: refinement against an executable retry/replay reference model")
@@ -42,6 +42,13 @@ CLAIMED["C09"] = ("travsim", "3.11", "per-worker copy equivalence, symmetric bri
                   "seeded deterministic simulation: lazy-vs-eager refinement and bridging invariants on the traversed graph")
 CLAIMED["C16"] = ("travsim", "3.12", "shadow models of the name index (naive contiguous-subsequence scan) and of the visit registers (wrapped register calls) compared with the live structures during and after simulated runs; restricted to the name sets and register histories that simulated jobs produce",
                   "seeded deterministic simulation: shadow-model comparison of index and registers during runs")
+
+CLAIMED["C07"] = ("travsim", "3.9", "refinement of the graph's edges (after eager parsing and at the end of lazily expanded simulated traversals) against an independent resolver that follows the get/set declarations with the Cartesian parser alone (per vm variant composition, own suffix resolution), including transitive cloning with branch-specific state names",
+                  "seeded deterministic simulation: refinement of the parsed/expanded graph against an independent dependency resolver")
+CLAIMED["C15"] = ("travsim", "3.14", "the real update tool driven under the virtual-time loop with 1-3 workers; executed tests and removal requests at the seams compared with the independent resolver's path and derived-state sets for every (from,to) pair drawn along the vms' setup chains, vm subsets, remove sets, invalid states",
+                  "seeded deterministic simulation: history check of the update tool against a resolver-derived expectation")
+CLAIMED["C20"] = ("travsim", "3.14", "Manu.run (with the real command line parser) driven under the virtual-time loop: seeded chains of built-in steps incl. repeated steps, vm subsets, worker sets with restrictions, failing steps; per-step coverage (vm x compatible worker), order, parameters and return code checked from the execution history",
+                  "seeded deterministic simulation with injected failing steps: history check of manual step chains")
 
 NOT_APPLICABLE = {
     "C11": "pure function of the argument list and the configuration files: no schedule, clock, fault or multi-party behaviour for a simulator to control (DESIGN.md 6)",
@@ -94,6 +101,7 @@ NOTES = {}
 NOTES["C06"] = ("Sampling. For eager parsing there is no schedule: that part is the base case of the same harness (seeded input generation + invariant). The simulation target is the lazy expansion, whose order depends on the workers' interleaving. "
                "Inputs: selections x vm variant restrictions (incl. multi-variant) x worker sets of the shipped suite.")
 NOTES["C09"] = NOTES["C06"]
+NOTES["C07"] = NOTES["C06"] + " The resolver is this repository's own reading of the configuration files through the Cartesian parser alone; generated suites with random setup DAGs are not built yet (shipped suite only)."
 NOTES["C16"] = ("Restricted claim: decides C16 on the name sets and register histories that simulated jobs produce; queries that match one name at two positions (multi-vm names repeat variants such as default_bios) are outside the property's stated domain and skipped. "
                "Driving PrefixTree with arbitrary synthetic name sets would be plain property-based testing without schedule or fault and is deliberately not done under this technique.")
 NOTES["C12"] = ("Sampling. One in-memory backend stands for all real backends; the experimental check_mode is modelled as coded and the strict no-alteration reading is checked in the check_mode=rr family; "
